@@ -128,6 +128,7 @@ func (e *Eng) heapWrite(st *State, recv types.Type, field, ref string, v *Val, f
 }
 
 func (e *Eng) heapWriteComp(st *State, name, ref string, v *Val) {
+	e.pureWrite(st, ref, name)
 	if v.Sort == "Slice" || v.Sort == "Struct" || v.Sort == "Tuple" {
 		for i, el := range v.Elems {
 			e.heapWriteComp(st, fmt.Sprintf("%s.%d", name, i), ref, el)
@@ -205,6 +206,7 @@ func (e *Eng) elemRead(st *State, elem types.Type, sl *Val, idx string) *Val {
 }
 
 func (e *Eng) elemWrite(st *State, elem types.Type, sl *Val, idx string, v *Val) {
+	e.pureWrite(st, sl.Elems[0].T, "slice element")
 	name, srt := e.elemsHeap(st, elem)
 	cur := e.heapSym(st, name, srt)
 	if v.Sort != elemSort(elem) {
@@ -238,6 +240,7 @@ func (e *Eng) mapRead(st *State, mt *types.Map, ref string, key *Val) (*Val, str
 }
 
 func (e *Eng) mapWrite(st *State, mt *types.Map, ref string, key, v *Val) {
+	e.pureWrite(st, ref, "map element")
 	hn, hs, vn, vs := e.mapHeaps(st, mt)
 	h := e.heapSym(st, hn, hs)
 	vv := e.heapSym(st, vn, vs)
@@ -377,8 +380,19 @@ func (e *Eng) freshNonNil(name string, t types.Type) *Val {
 	v := e.freshVal(name, t)
 	if v.Sort == "Int" {
 		e.decls = append(e.decls, fmt.Sprintf("(assert (> %s 0))", v.T))
+		if e.localRefs == nil {
+			e.localRefs = map[string]bool{}
+		}
+		e.localRefs[v.T] = true
 	}
 	return v
+}
+
+// pureWrite: a function declared `pure` may only write objects it allocated itself.
+func (e *Eng) pureWrite(st *State, ref string, what string) {
+	if e.con != nil && e.con.Pure && !e.localRefs[ref] {
+		e.oblige(st, "pure", "heap-write "+what, "false", token.NoPos)
+	}
 }
 
 func (e *Eng) globalVal(key string, t types.Type) *Val {
@@ -529,14 +543,35 @@ func (e *Eng) evalBinary(st *State, x *ast.BinaryExpr) *Val {
 	if x.Op == token.LAND || x.Op == token.LOR {
 		l := e.eval(st, x.X)
 		// short-circuit: evaluate rhs under assumption
-		sub := st.clone()
-		if x.Op == token.LAND {
-			sub.path = e.define("p", "Bool", and(st.path, l.T))
-		} else {
-			sub.path = e.define("p", "Bool", and(st.path, not(l.T)))
+		need := l.T
+		if x.Op == token.LOR {
+			need = not(l.T)
 		}
+		hasCall := false
+		ast.Inspect(x.Y, func(n ast.Node) bool {
+			if _, ok := n.(*ast.CallExpr); ok {
+				hasCall = true
+			}
+			return !hasCall
+		})
+		sub := st.clone()
+		sub.path = e.define("p", "Bool", and(st.path, need))
 		r := e.eval(sub, x.Y)
-		// propagate heap/vars are unchanged by pure rhs in our subset (calls in rhs: havoc conservatively ignored)
+		if hasCall {
+			// the right operand may have effects (calls, ghost updates, havoc): merge like `if`
+			skip := st.clone()
+			skip.path = e.define("p", "Bool", and(st.path, not(need)))
+			var outs []*State
+			outs = append(outs, skip)
+			if !sub.dead {
+				outs = append(outs, sub)
+			}
+			m := e.merge(outs)
+			*st = *m
+		}
+		if r == nil {
+			r = scalar("false", "Bool", t)
+		}
 		if x.Op == token.LAND {
 			return scalar(e.define("b", "Bool", fmt.Sprintf("(and %s %s)", l.T, r.T)), "Bool", t)
 		}
